@@ -19,7 +19,7 @@ class JobTimeout(Exception):
 
 
 def _alarm(signum, frame):
-    raise JobTimeout("job did not finish within 8 s in this zone")
+    raise JobTimeout("job did not finish within 2 s in this zone")
 
 
 def main():
@@ -29,7 +29,7 @@ def main():
     out = []
     for job in jobs:
         try:
-            signal.setitimer(signal.ITIMER_REAL, 8)
+            signal.setitimer(signal.ITIMER_REAL, 2)
             rows, tf, cut, fill = job["rows"], job["tf"], job["cut"], job.get("fill", False)
             if job.get("entry") == "indicator":
                 ind = HighLowAverage(candles=rows_to_candles(rows[:cut]), timeframe=tf, timeframe_fill=fill)
